@@ -28,8 +28,11 @@ def alt(l):
 # (what the property talks about), only_impl_ok = tags compared only when the implementation is the more
 # permissive side (for "only if" statements).
 PROPS = {
-    'C01': dict(level='proof', scenarios=[('attest', 1500, 20000, ''), ('history', 2500, 20000, 'recv')],
-                tags=[r'^verify$', r'^tx:(ReceiveMessage|ReplaceMessage|ReplaceDepositForBurn):out$'],
+    'C01': dict(level='proof', scenarios=[('attest', 1500, 20000, ''), ('history', 2500, 20000, 'recv'), ('attesters', 800, 8000, '')],
+                tags=[r'^verify$', r'^tx:(ReceiveMessage|ReplaceMessage|ReplaceDepositForBurn):out$',
+                      # "currently enabled attester" / "threshold" are what the enable / disable / threshold transactions left in the store
+                      r'^tx:(EnableAttester|DisableAttester|UpdateSignatureThreshold):out$',
+                      r'^after:tx:(EnableAttester|DisableAttester|UpdateSignatureThreshold):store:(Attester|SignatureThreshold)$'],
                 ops=[('verify', ''), ('tx', 'ReceiveMessage'), ('tx', 'ReplaceMessage'), ('tx', 'ReplaceDepositForBurn')]),
     'C02': dict(level='proof', scenarios=[('history', 4000, 30000, 'recv'), ('selftest', 300, 3000, '')],
                 tags=[r'^tx:ReceiveMessage:out$', r'^query:UsedNonces?$', r'^store:UsedNonce$', r'^genesis-export:used$', r'^key$'],
@@ -170,8 +173,11 @@ def mismatch_tags(d, ops, impl, model):
     i, kind, sub, field, a, b = d
     tags = set()
     if kind == 'tx':
-        tags.add('tx:%s:%s' % (sub, field))
         ca, cb = O.canon_obs('tx', impl[i]), O.canon_obs('tx', model[i])
+        if ca.get('out') != cb.get('out'):
+            tags.add('tx:%s:out' % sub)
+        else:
+            tags.add('tx:%s:%s' % (sub, field))
         if ca.get('out') == 'ok' and cb.get('out') == 'ok':
             for f in ('resp', 'deps'):
                 if ca.get(f) != cb.get(f):
